@@ -78,6 +78,11 @@ def run(ctx) -> Report:
     rep = Report("C10")
     prog = ctx.prog
     terms, exprs = corpus.build()
+    # compositional family: every composition closer(wrapper^n(base)), n <= 1 (quick) / 2 (thorough)
+    _, generated = corpus.generate(2 if ctx.thorough() else 1, terms)
+    exprs = exprs + generated
+    rep.counts["hand_written_inputs"] = len(exprs) - len(generated)
+    rep.counts["generated_inputs"] = len(generated)
 
     def compare(rule, where, what, got, want, extra=""):
         got, want = as_T(got), as_T(want)
